@@ -405,7 +405,7 @@ RE_EXTENT_DESCRIPTOR = re.compile(
     ^
     (?P<access_mode>RW|RDONLY|NOACCESS)\s
     (?P<sectors>\d+)\s
-    (?P<type>SPARSE|ZERO|FLAT|VMFS|VMFSSPARSE|VMFSRDM|VMFSRAW)
+    (?P<type>SPARSE|ZERO|FLAT|VMFS|VMFSSPARSE|VMFSRDM|VMFSRAW|SESPARSE)
     (\s(?P<filename>\".+\"))?
     (\s(?P<start_sector>\d+))?
     (\s(?P<partition_uuid>\S+))?
